@@ -240,13 +240,13 @@ func init() {
 	reg(&PropSpec{
 		ID: "C08",
 		Harnesses: func(tier string) []HarnessSpec {
-			return []HarnessSpec{{Name: "supervision-tree", Pkg: "actor", Func: "ZZ_C08", Preempt: tierSel(tier, 1, 2), Params: pm("D", tierSel(tier, 1, 2), "F", 2),
+			return []HarnessSpec{{Name: "supervision-tree", Pkg: "actor", Func: "ZZ_C08", Preempt: tierSel(tier, 1, 2), Params: pm("D", 1, "F", 2),
 				Witnesses: []string{"child-stopped-on-its-own", "third-party-poisons-child-during-shutdown"}, Deadline: 60 * time.Minute, ReplayAttempts: 8}}
 		},
 		Bounds: func(tier string) string {
-			return fmt.Sprintf("tree of depth %d and fan-out 2 with real inboxes; phase 1: optionally one child is poisoned by a third party and has stopped, then Children() is probed; phase 2: the root is stopped or poisoned, optionally while a third party poisons one child concurrently; preemption bound %d", tierSel(tier, 1, 2), tierSel(tier, 1, 2))
+			return fmt.Sprintf("tree of depth 1 and fan-out 2 with real inboxes; phase 1: optionally one child is poisoned by a third party and has stopped, then Children() is probed; phase 2: the root is stopped or poisoned, optionally while a third party poisons one child concurrently; preemption bound %d", tierSel(tier, 1, 2))
 		},
-		Outside:     []string{"children that crash during the shutdown", "deeper / wider trees", "map iteration order of the children map: one order explored symbolically (native replays see Go's random order, hence several replay attempts)"},
+		Outside:     []string{"children that crash during the shutdown", "deeper / wider trees (depth 2 did not finish within 10 minutes and is not registered)", "map iteration order of the children map: one order explored symbolically (native replays see Go's random order, hence several replay attempts)"},
 		Assumptions: thrAssume("bare engine, real process/Inbox/Context/SafeMap; node receivers record Stopped and check their descendants at that instant; the stop context's cancellation instant is observed through the context model's OnCancel hook"),
 	})
 
